@@ -11,7 +11,28 @@ def make_case(cfg, mems, state, poke, steps=1, hooked=False):
             'poke': [[a, d.hex() if isinstance(d, (bytes, bytearray)) else d] for a, d in poke], 'steps': steps}
 
 
+def _scramble_loaded_configuration(path):
+    """what an earlier user of the process may have left behind: configuration values edited in memory (never written to a file). An instance created
+    from a configuration file afterwards gets what the file says, so this must have no effect. The scrambled values are a function of the file
+    (so that a case behaves the same in a long-running shard and in a fresh replay process)."""
+    try:
+        import json
+        from armulator.armv6.configurations import configurations
+        cfg = getattr(configurations, 'configs', None)
+        on_file = json.load(open(path))
+        if isinstance(cfg, dict):
+            for k, v in on_file.items():
+                if isinstance(v, bool):
+                    cfg[k] = not v
+                elif k == 'arch_version' and isinstance(v, int):
+                    cfg[k] = 4 if v >= 6 else 7
+    except Exception:      # noqa: BLE001 - a refactored configuration module must not break the harness
+        pass
+
+
 def build(case):
+    target.load_config(case.get('cfg') or None)          # (the same file the instance is about to be created from: the scramble is self-contained)
+    _scramble_loaded_configuration(target.config_path(case.get('cfg') or None))
     cpu = target.new_cpu(case.get('cfg') or None, case.get('hooked', False), [tuple(m) for m in case['mems']])
     target.budget_cpu(cpu, case.get('hooked', False))
     target.apply_state(cpu, case['state'])
